@@ -84,6 +84,7 @@ CLAUSES = {
     "empty scriptSigs; objects handed to the API are not modified":
         "correspondence-only: the model is a value semantics (a function never changes its argument), so aliasing between the "
         "extracted transaction and the PSBT cannot be expressed in it; checked on the real objects by the predicates "
+        "combine_leaves_argument_alone, live_reuse_same_as_saved_bytes (live signer objects folded in several orders and re-used), "
         "same_object_workflow and api_inputs_unchanged (one object through create, update, sign, combine, finalize, final_tx twice)",
 }
 TRUSTED = [
@@ -261,6 +262,12 @@ def api_snapshot(w, b):
     return snap
 
 
+def _raised_in_library(e):
+    import traceback
+    tb = traceback.extract_tb(e.__traceback__)
+    return bool(tb) and os.sep + "buidl" + os.sep in tb[-1].filename
+
+
 def wallet_job(spec):
     """everything for one wallet, in a worker process.  Returns lines (kind, case, request, impl answer) for the
     model, predicate outcomes (kind, case, ok, got, want) and finding witnesses.  An exception that escapes from
@@ -320,6 +327,20 @@ def _wallet_job(spec, lines, preds, findings):
             raw_u = REJECT
     orc.merge(o)
     add_line("update", line_of("update", PC.NET, orc, xb(raw_c), lookups_tokens(*b.lookups)), raw_u, step="update")
+    # --- the ONE-CALL route: every lookup handed to PSBT.create; must give the PSBT of create + update, byte for byte
+    p_one = None
+    with PC.Oracle() as o:
+        try:
+            p_one = PSBT.create(b.tx_obj.clone(), tx_lookup=b.lookups[0], pubkey_lookup=b.lookups[1],
+                                redeem_lookup=b.lookups[2], witness_lookup=b.lookups[3])
+            raw_one = xb(p_one.serialize())
+        except Exception as e:
+            if not _raised_in_library(e):
+                raise
+            p_one, raw_one = None, REJECT
+    orc.merge(o)
+    add_line("create_onecall", line_of("update", PC.NET, orc, xb(raw_c), lookups_tokens(*b.lookups)), raw_one, step="create, one call")
+    add_pred("one_call_create_equals_two_step", raw_one == raw_u, raw_one[:200], raw_u[:200], step="create, one call")
     own = bool(spec.get("own_records")) and n >= 2
     if spec["xpubs"] and not own:
         hd = {}
@@ -610,6 +631,139 @@ def _wallet_job(spec, lines, preds, findings):
     orc.merge(o)
     snap1 = api_snapshot(w, b)
     add_pred("api_inputs_unchanged", snap1 == snap0, [k for k in snap0 if snap0[k] != snap1.get(k)][:6], [])
+
+    # --- LIVE objects: the signers' PSBT objects A, B, C … stay alive (parsed once, never re-read) and are folded into
+    #     several fresh objects in different orders, then used again.  `x.combine(other)` must neither modify `other`
+    #     nor keep a reference into it: after the combine and after EVERY later mutation of x (another combine, a
+    #     signer, finalize) the argument still serialises to its bytes and shares no signature dict with x; "only A"
+    #     combined into a fresh PSBT gives what A re-read from its saved bytes gives (same bytes, same finalize verdict).
+    with PC.Oracle() as o:
+        live = {j: PC.reparse(signed[j]) for j in range(n)}
+        saved = {j: live[j].serialize() for j in range(n)}
+
+        def args_intact(x, used, step, order):
+            bad = [j for j in used if live[j].serialize() != saved[j]]
+            shared = [(j, i) for j in used for i, (pa, pb) in enumerate(zip(x.psbt_ins, live[j].psbt_ins))
+                      if pa.sigs is pb.sigs or pa.named_pubs is pb.named_pubs or pa.extra_map is pb.extra_map]
+            add_pred("combine_leaves_argument_alone", not bad and not shared, {"argument changed": bad, "shared dicts": shared[:4]},
+                     {"argument changed": [], "shared dicts": []}, step=step, order=list(order))
+
+        def fin_verdict(x):
+            try:
+                x.finalize()
+                return xb(x.serialize())
+            except Exception as e:
+                if not _raised_in_library(e):
+                    raise
+                return REJECT
+
+        ids = list(range(n))
+        orders = [ids, ids[::-1], ids[1:] + ids[:1]] if n > 1 else [ids]
+        seen_orders = []
+        for order in orders:
+            if order in seen_orders:
+                continue
+            seen_orders.append(order)
+            fresh = PC.reparse(raw0)
+            used = []
+            for j in order:
+                fresh.combine(live[j])
+                used.append(j)
+                args_intact(fresh, used, f"after combine of signer {j}", order)
+            extra = order[0]
+            if extra % 2 == 0:
+                fresh.sign(w.roots[extra])
+            else:
+                fresh.sign_with_private_keys([w.child_priv(extra, 0, idx).private_key for idx in sorted(set(b.input_index))])
+            args_intact(fresh, used, f"after a later sign by signer {extra}", order)
+            fin_verdict(fresh)
+            args_intact(fresh, used, "after finalize", order)
+        # A alone, live, after all of the above — against A re-read from its saved bytes
+        for j in sorted({0, n - 1}):
+            xa = PC.reparse(raw0)
+            xa.combine(live[j])
+            xr = PC.reparse(raw0)
+            xr.combine(PC.reparse(signed[j]))
+            ba, br = xa.serialize(), xr.serialize()
+            va, vr = fin_verdict(xa), fin_verdict(xr)
+            add_pred("live_reuse_same_as_saved_bytes", ba == br and va == vr, [xb(ba)[:120], va[:60]], [xb(br)[:120], vr[:60]], signer=j)
+            if not single and m >= 2:
+                add_pred("live_reuse_same_as_saved_bytes", va == REJECT, va[:60], REJECT, signer=j, step="one signer of an m >= 2 wallet cannot finalize")
+    orc.merge(o)
+
+    # --- the workflow run from the one-call PSBT object: the needed signers sign, finalize, extract, verify
+    if p_one is not None:
+        with PC.Oracle() as o:
+            try:
+                signers = list(range(n)) if single else list(range(m))
+                oks = []
+                for j in signers:
+                    if j % 2 == 1:
+                        oks.append(p_one.sign(w.roots[j]))
+                    else:
+                        oks.append(p_one.sign_with_private_keys([w.child_priv(j, 0, idx).private_key for idx in sorted(set(b.input_index))]))
+                p_one.finalize()
+                txf = p_one.final_tx()
+                got = [all(x is True for x in oks), bool(txf.verify())]
+            except Exception as e:
+                if not _raised_in_library(e):
+                    raise
+                got = f"raised {type(e).__name__}: {e}"[:160]
+        orc.merge(o)
+        add_pred("one_call_workflow", got == [True, True], got, [True, True], step="one-call create, sign, finalize, final_tx")
+
+    # --- partial signatures with another sighash flag: whatever does not verify is refused on load.  The library
+    #     checks every partial signature against the SIGHASH_ALL digest and never looks at the flag byte, so a genuine
+    #     signature made with another hash type is refused as well, and (observation O10c) a genuine SIGHASH_ALL
+    #     signature whose flag byte was relabelled is kept; the model is told the library's answers and must agree.
+    if n >= 1 and spec["n_inputs"] >= 1 and sig_keys[0]:
+        (fi, fsec), fsig = sorted(sig_keys[0].items())[0]
+        fder = fsig[:-1]
+        foreign = [s2 for j2 in sorted(sig_keys) for (i2, sec2), s2 in sorted(sig_keys[j2].items()) if s2 != fsig]
+        with PC.Oracle() as o:
+            rp0 = PC.reparse(signed[0])
+        orc.merge(o)
+        pin = rp0.psbt_ins[fi]
+        priv0 = None
+        for idx in sorted(set(b.input_index)):
+            cand = w.child_priv(0, 0, idx).private_key
+            if cand.point.sec() == fsec:
+                priv0 = cand
+        flagged = []
+        for F in (0x00, 0x02, 0x03, 0x81, 0x82, 0x83, 0xFF):
+            fb = bytes([F])
+            wd = bytearray(fder)
+            wd[-10] ^= 0x01
+            flagged.append((f"wrong digest, valid DER, flag {F:#04x}", bytes(wd) + fb, True))
+            flagged.append((f"broken DER, flag {F:#04x}", bytes([fder[0] ^ 0x01]) + fder[1:] + fb, True))
+            if foreign:
+                flagged.append((f"another key's signature, flag {F:#04x}", foreign[0][:-1] + fb, True))
+            if priv0 is not None:
+                try:
+                    if pin.prev_out is not None:
+                        z = rp0.tx_obj.sig_hash_bip143(fi, redeem_script=pin.redeem_script, witness_script=pin.witness_script, hash_type=F)
+                    else:
+                        z = rp0.tx_obj.sig_hash_legacy(fi, redeem_script=pin.redeem_script, hash_type=F)
+                    flagged.append((f"genuine signature with hash type {F:#04x}", priv0.sign(z).der() + fb, True))
+                except Exception:
+                    pass
+            flagged.append((f"genuine SIGHASH_ALL signature relabelled {F:#04x}", fder + fb, False))
+        for why, newsig, must_refuse in flagged:
+            with PC.Oracle() as o:
+                qq = PC.reparse(signed[0])
+                if fsec not in qq.psbt_ins[fi].sigs:
+                    break
+                qq.psbt_ins[fi].sigs[fsec] = newsig
+                rawbad = qq.serialize()
+                try:
+                    PC.reparse(rawbad)
+                    got = "accepted"
+                except Exception:
+                    got = REJECT
+            orc.merge(o)
+            if must_refuse:
+                add_pred("bad_partial_sig_refused", got == REJECT, got, REJECT, why=why)
+            add_line("parse_ser_badsig", line_of("parse_ser", PC.NET, orc, xb(rawbad)), got if got == REJECT else xb(rawbad), why=why)
 
     # --- a partial signature that does not verify is refused on load
     if n >= 1 and spec["n_inputs"] >= 1:
@@ -963,6 +1117,8 @@ PREDICATE_DOC = {
     "honest_workflow_completes": "no library exception escapes from an honest create / update / sign / combine / finalize / extract workflow",
     "honest_psbt_loads": "an honest PSBT built by create + update validates, serialises and parses back (all six script types)",
     "same_object_workflow": "one PSBT object used through create, update, sign, combine, finalize, final_tx (twice): after every step it re-parses to identical bytes and its embedded transaction is unchanged (txid, legacy format, empty scriptSigs / witnesses)",
+    "combine_leaves_argument_alone": "x.combine(other) neither modifies other nor shares a dict with it: after the combine and after every later combine / sign / finalize on x the argument (a live object, never re-parsed) serialises to its bytes",
+    "live_reuse_same_as_saved_bytes": "a signer's live PSBT object, after having been combined into other objects, gives the same combined bytes and the same finalize verdict as the PSBT re-read from its saved bytes (one signer of an m >= 2 wallet is refused)",
     "api_inputs_unchanged": "the Tx, TxIn/TxOut, lookups and HD keys handed to the API are unchanged after the whole workflow",
     "reserialize_idempotent": "serialize(parse(serialize p)) == serialize p on the real code, after every step",
     "order_independent": "every permutation / combine tree / sign-then-combine mix of one signer subset gives the same bytes",
@@ -971,6 +1127,8 @@ PREDICATE_DOC = {
     "finalize_in_memory_order_independent": "finalize on the in-memory result of a history (signatures inserted in history order) gives the canonical finalised PSBT",
     "finalize_iff_threshold": "finalize succeeds iff >= m signers signed (exactly 1 for the single-key types)",
     "extract_verifies_iff_threshold": "final_tx returns a transaction that Tx.verify accepts iff the threshold is met",
+    "one_call_create_equals_two_step": "PSBT.create(tx, tx_lookup, pubkey_lookup, redeem_lookup, witness_lookup) serialises to the bytes of PSBT.create(tx) followed by update(...)",
+    "one_call_workflow": "from the one-call PSBT object the needed signers sign, finalize and final_tx succeed and the transaction verifies",
     "bad_partial_sig_refused": "a PSBT carrying a partial signature that does not verify is refused by PSBT.parse",
     "bip174_valid_roundtrip": "valid BIP174 vectors re-serialise to the identical bytes",
     "bip174_invalid_refused": "invalid BIP174 vectors are refused",
